@@ -402,7 +402,7 @@ def _get_dataclass_schema(instance: Instance, ctx: Context) -> JSONSchema:
             f_schema = JSONSchema.from_dict(override)
         else:
             f_schema = get_schema(f_instance, ctx)
-        if f_instance.alias:
+        if f_instance.alias is not None:
             f_name = f_instance.alias
         if f_default is not MISSING:
             f_schema.default = f_default
